@@ -143,4 +143,12 @@ Witness_ZeroAttempts == ~(stopped /\ emitted = 0)
 Witness_ClampMax == ~(policy = "exponential" /\ 115 * Raw(k) > 100 * max)
 Witness_ClampBase == ~(policy = "exponential" /\ 85 * Raw(k) < 100 * base /\ base > 0)
 Witness_LongUnlimited == ~(attempts = None /\ emitted = Horizon)
+\* the same witnesses as stuttering probe actions: with NEXT NextW and -coverage, a non-zero count for W_x
+\* shows x is reachable without a separate TLC run (NextW is used for nothing else)
+W_Saturated == ~Witness_Saturated /\ UNCHANGED vars
+W_ZeroAttempts == ~Witness_ZeroAttempts /\ UNCHANGED vars
+W_ClampMax == ~Witness_ClampMax /\ UNCHANGED vars
+W_ClampBase == ~Witness_ClampBase /\ UNCHANGED vars
+W_LongUnlimited == ~Witness_LongUnlimited /\ UNCHANGED vars
+NextW == Next \/ W_Saturated \/ W_ZeroAttempts \/ W_ClampMax \/ W_ClampBase \/ W_LongUnlimited
 =============================================================================
